@@ -14,7 +14,7 @@ export VERIF_REPO="$S/repo"
 (cd "$S/verif/harness" && ./gen_shims.sh)
 "$S/verif/run.sh" setup >/dev/null 2>&1 || echo "setup failed"
 for seed in "${@:-0}"; do
-  for id in C01 C02 C03 C04 C05 C06 C07 C08 C09 C10 C11 C12 C13 C14 C15 C16 C17 C18 C19; do
+  for id in ${IDS:-C01 C02 C03 C04 C05 C06 C07 C08 C09 C10 C11 C12 C13 C14 C15 C16 C17 C18 C19}; do
     out=$(VERIF_SEED=$seed "$S/verif/run.sh" $id thorough 2>&1); rc=$?
     v=$(echo "$out" | grep -c "^VIOLATION")
     echo "seed=$seed $id rc=$rc violations=$v t=$SECONDS $(echo "$out" | grep -E "^(VIOLATION|INCONCLUSIVE|HARNESS)" | head -2 | tr '\n' ' ' | cut -c1-200)"
